@@ -25,6 +25,18 @@
 	size_t  vp_in_moff = vp_in.m_body.ch_cap ? (size_t) __CPROVER_POINTER_OFFSET(vp_in.m_body.ch_ptr) : 0; \
 	VP_MSNAP_END
 
+/* nni_msg_free: m may be NULL */
+#define VP_SNAP_MSG_OPT(m)                                                         \
+	VP_MSNAP_BEGIN                                                                 \
+	size_t  vp_arg_m = ((m) != NULL);                                              \
+	nni_msg vp_in;                                                                 \
+	size_t  vp_in_moff = 0;                                                        \
+	if ((m) != NULL) {                                                             \
+		vp_in      = *(m);                                                         \
+		vp_in_moff = vp_in.m_body.ch_cap ? (size_t) __CPROVER_POINTER_OFFSET(vp_in.m_body.ch_ptr) : 0; \
+	}                                                                              \
+	VP_MSNAP_END
+
 /* first four body bytes (the word nni_*_trim_u32 decodes) */
 #define VP_SNAP_B4(c)                                                              \
 	VP_MSNAP_BEGIN                                                                 \
